@@ -156,6 +156,11 @@ def run(ctx):
     # ---------------- replay of a stored scenario
     if ctx.replay:
         obj = json.load(open(ctx.replay)).get("replay") or {}
+        if obj.get("kind") == "trace":
+            # re-validate the recorded execution (prefix up to the rejected call) against TraceLifecycle
+            tracev.validate(ctx, "TraceLifecycle", [(obj.get("label", "replay"), obj["events"])],
+                            lambda lab, e, i: "trace:%s:%s:%s" % (e.get("fn"), e.get("ret"), "unchanged" if e.get("same", True) else "caller-object-modified"))
+            return ctx.finish(rule="replay: re-validation of a recorded execution", trusted=["TLC"])
         scns = obj.get("scenario") or []
         if not scns and obj.get("label"):
             scns = [s for s in [obj.get("scn")] if s]
